@@ -68,6 +68,13 @@ def generate(rng, tier):
     for r in reqs:
         if r['op'] == 'read_data' and w.chans[r['ch']].type == 'daqmx' and rng.random() < 0.5:
             r['scaled'] = False
+    if spec['segments'][-1].get('declared_huge'):
+        # value counts of 2**31 and more take part in the position arithmetic of these channels: the windows asked for with
+        # 32 bit numpy integers are where fixed-width arithmetic would give way
+        for L in spec['segments'][-1]['listed']:
+            n = w.chans[L['path']].count
+            reqs.append({'op': 'read_data', 'ch': L['path'], 'offset': max(0, n - 2), 'length': 2, 'np': 'int32'})
+            reqs.append({'op': 'slice', 'ch': L['path'], 'start': -2, 'stop': None, 'step': None, 'np': 'int32'})
     threads = None
     if reqs and rng.random() < 0.1:
         threads = {'seed': rng.getrandbits(32), 'switch_p': rng.choice([0.05, 0.2, 0.5]),
